@@ -114,22 +114,22 @@ CHECKS["C05"] = dict(
     text=("Lean: kernel_mask_eq_filter - for every kernel, dtype class, mask kind (boolean, slice with None/negative bounds, positions with repeats/negatives), "
           "thread count and value chunking the masked group kernel returns what the unmasked kernel returns on rows[mask] (from the end-to-end kernel theorem "
           "groupKernel_eq_def, which includes the proof that the dispatch's blocks concatenate to rows[mask]); unselected_rows_inert; for row-aligned "
-          "operations cum_mask_eq_filter and rolling_sum/mean_mask_eq_filter: at every selected row the masked run equals the run on the filtered data at the "
-          "row's rank. Metamorphic correspondence on the public API for every maskable operation (reductions incl. var/std/median, cumulative, rolling, "
+          "operations cum_mask_eq_filter, rolling_sum/mean_mask_eq_filter, rolling_extremum_mask_eq_filter (max / min) and rolling_shift_diff_mask_eq_filter: "
+          "at every selected row the masked run equals the run on the filtered data at the row's rank. Metamorphic correspondence on the public API for every maskable operation (reductions incl. var/std/median, cumulative, rolling, "
           "shift/diff, EMA plain and timed) plus overwrite-unselected-values test."),
-    note="Rolling min/max, shift/diff and the EMA kernels are covered by the metamorphic run only; the public pipeline above the kernels (observed filter under a mask) by correspondence. Open finding: untimed EMA treats masked rows as null values (pinned by tests).",
+    note="The EMA kernels are covered by the metamorphic run (and C10's group-independence theorems); the public pipeline above the kernels (observed filter under a mask) by correspondence. Open finding: untimed EMA treats masked rows as null values (pinned by tests).",
     technique="Lean 4 proof (corollaries of the kernel contract and of the prefix theorems; list rank/filter lemma) + metamorphic differential testing of masked vs filtered executions",
     design="§7 C05",
 )
 
 CHECKS["C06"] = dict(
     text=("Lean: deleting the rows with a null (negative) code changes no group's reduction (from the kernel contract); a multi-key row gets the null code iff "
-          "ANY component is null (mixed-radix theorem); for the cumulative loop, rolling sum and the EMA loop shape: the output at a non-null-key row is "
+          "ANY component is null (mixed-radix theorem); for the cumulative loop, rolling sum / mean / max / min / shift / diff and the EMA loop shape: the output at a non-null-key row is "
           "unchanged by deleting the null-key rows (dropNull_at_rank rank lemma + prefix theorems), and a null-key row receives a marker that depends on no "
           "other row; the obligation all_guards_present ties this to the `key < 0` guards of the current source (extracted by the translator for nine loops). "
           "Metamorphic correspondence: every public operation (reductions, transform, cumulative, rolling, shift/diff, EMA, head/tail/nth, groups, "
           "group_nearby_members) on data with nulls in any key position vs the same data with those rows deleted; constancy of the marker."),
-    note="Rolling min/max/shift/diff and row selection are covered at the model level by their own properties (C09, C15) and here by the metamorphic run.",
+    note="Row selection is covered at the model level by its own property (C15) and here by the metamorphic run.",
     technique="Lean 4 proof (corollaries of kernel contract / prefix theorems via a rank lemma; source guard facts) + metamorphic differential testing",
     design="§7 C06",
 )
